@@ -39,7 +39,7 @@ func init() {
 		Gen:       c15Gen,
 		Run:       c15Run,
 		Rule:      "op sequences on random.NewChacha20PRG (UintN at n in {1,2,3,2^k,2^k+-1,2^64-1} and random n, large-then-small n so that stale uintnBuffer bytes matter, Permutation/SubPermutation/Samples/Shuffle for all (n,m) with n<=8 and random (n,m), Samples with huge n, negative and inconsistent sizes, UintN(0)); every case is run twice with the same seed and ends with a raw 8-byte Read; a case is non-trivial if it consumed tape bytes or exercised an error/panic; distinct by (seed, customizer, op list)",
-		Shard:     25,
+		Shard:     16,
 	})
 }
 
@@ -124,7 +124,7 @@ func c15Gen(tier string, r *rand.Rand) []Case {
 		}
 	}
 	// random (n, m)
-	nr := 40
+	nr := 30
 	maxn := 300
 	if th {
 		nr = 400
